@@ -630,7 +630,7 @@ fn logic_operand_to_string(exp: &Exp) -> String {
 impl fmt::Display for Exp {
     fn fmt(&self, f: &mut fmt::Formatter<'_>) -> fmt::Result {
         let s = match self {
-            Exp::Number(value) => value.to_string(),
+            Exp::Number(value) => crate::utils::number_to_source(*value),
             Exp::Variable(name) => name.clone(),
             Exp::Abs(exp) => format!("abs{{ {} }}", exp),
             Exp::And(exps) => exps
